@@ -65,7 +65,18 @@ def main():
         rc = 2
     finally:
         try:
-            shutil.rmtree(scratch_root(), ignore_errors=True)
+            root = scratch_root()
+            shutil.rmtree(root, ignore_errors=True)
+            # scratch directories of worker processes that are gone (pool workers leave theirs)
+            base = os.path.dirname(root)
+            for fn in os.listdir(base):
+                if fn.startswith("mwsim-") and fn[6:].isdigit():
+                    try:
+                        os.kill(int(fn[6:]), 0)
+                    except ProcessLookupError:
+                        shutil.rmtree(os.path.join(base, fn), ignore_errors=True)
+                    except Exception:
+                        pass
         except Exception:
             pass
     sys.exit(rc)
